@@ -240,7 +240,7 @@ class Vector():
 			return Vector._hash_element(tuple(rep))
 
 		if isinstance(x, (list, tuple)):
-			h = 0
+			h = len(x) + 1  # the length goes in first: (x,) and x, or (0, 1) and (1,), must not collide
 			for elem in x:
 				h = (h * B + Vector._hash_element(elem)) % P
 			return h
